@@ -117,9 +117,12 @@ func c20CLITasks() []mc.Task {
 			return
 		}
 		defer box.close()
-		for _, L := range []int{3, 4, 10, 100, 455, 456, 700, 2000} { // 9 bytes per weight: 455/456 straddle 4096 bytes per line
+		for _, L := range []int{3, 4, 10, 100, 455, 456, 700, 2000, 7000, 7500, 30000} { // long lines: several write buffers per line // 9 bytes per weight: 455/456 straddle 4096 bytes per line
 			for _, n := range []int{1, 2, 5} {
 				for _, out := range []string{"stdout", "file", "file.gz"} {
+					if L > 2000 && (n > 1 && out != "file") {
+						continue
+					}
 					for seed := 1; seed <= 2; seed++ {
 						c20CheckCLI(c, box, c20CLICase{CLI: true, L: L, N: n, Seed: seed, Out: out})
 					}
